@@ -20,7 +20,7 @@ class C09(core.Check):
     design_ref = "DESIGN.md §5 C09"
     technique = ("Lean 4 theorems over an executable model of the four connection classes driven by an arbitrary kernel-response script; "
                  "fault outcome tables regenerated from the source; differential run of the compiled model against the real classes on scripted fake sockets")
-    level_text = ("Proved for every call history, every payload sequence and every kernel script (unbounded, all four classes, with or without wire log): "
+    level_text = ("Proved for every call history (tx / serviceSends / serviceReceives / service / peer-reset), every payload sequence and every kernel script, under the guard `no wire log, or a class whose wire-log call needs no peer address` (flags probed from the code; peer_safe_kinds discharges it for Client, ClientTls, Remoter; stream_fails_if_wirelog_needs_peer proves the excluded case loses/duplicates bytes = known finding C09-K2 for RemoterTls, fix proposed on fix/tcp): "
                   "stream_prefix (accepted ++ txbs = all payloads, so the peer holds a prefix, nothing lost/duplicated/reordered), peer_has_prefix, rx_exact (rxbs = delivered), "
                   "wire_log_exact, wire_log_absent, drains (|txbs| service calls empty the buffer when each send takes >= 1 byte) and drains_delivers_all, receives_all. "
                   "The model is tied to the code by the correspondence run (same scripts on fake sockets handed to the real classes); thorough adds real loopback sockets.")
